@@ -44,7 +44,11 @@ QuadsFull == <<
   \* punctuation beyond ASCII (characters of two and three bytes): the guillemets, one of them after an ASCII sign
   << <<194, 171>>, <<194, 187>>, <<226, 128, 185>>, <<226, 128, 186>> >>,
   << <<LB, LB>>, <<RB, RB>>, <<194, 171, 37>>, <<37, 194, 187>> >>,
-  << <<194, 161>>, <<33>>, <<194, 191>>, <<63, 226, 128, 186>> >>
+  << <<194, 161>>, <<33>>, <<194, 191>>, <<63, 226, 128, 186>> >>,
+  \* delimiters that hold a hyphen themselves (the comment signs of HTML), and a one-character object delimiter that
+  \* an object's own text may begin with: the hyphen that controls white space is the one right inside the delimiter
+  << <<LT, 33, 45, 45>>, <<45, 45, GT>>, <<LT, 37>>, <<37, GT>> >>,
+  << <<LP>>, <<RB>>, <<LT, 37>>, <<37, GT>> >>
 >>
 NonPrefixing(q) == \A i, j \in 1..4 : i # j => ~IsPrefixOf(q[i], q[j])
 Quads == SelectSeq(QuadsFull, NonPrefixing)
@@ -53,7 +57,8 @@ EmptySubsets == [m \in 0..15 |-> [i \in 1..4 |-> IF (m \div (2^(i - 1))) % 2 = 1
 
 \* --------------------------------------------------------------- tokens
 Texts == << <<97>>, <<32, 98, 10>>, <<10>>, <<120, 32, 121>> >>
-ObjInner == << <<32, 120, 32>>, <<120>>, <<32, 39, 118, 39, 32, 124, 32, 117, 112, 99, 97, 115, 101, 32>> >>
+\* (the last one: a range that starts with a parenthesis and a minus sign, written tight)
+ObjInner == << <<32, 120, 32>>, <<120>>, <<32, 39, 118, 39, 32, 124, 32, 117, 112, 99, 97, 115, 101, 32>>, <<40, 45, 50, 46, 46, 49, 41, 32>> >>
 TagInner == << <<32, 97, 115, 115, 105, 103, 110, 32, 121, 32, 61, 32, 49, 32>>, <<98, 114, 101, 97, 107>>, <<32, 105, 102, 32, 120, 10>> >>
 TokPool == [ty : {"text"}, i : 1..Len(Texts)]
            \cup [ty : {"obj"}, i : 1..Len(ObjInner), tl : BOOLEAN, tr : BOOLEAN]
@@ -69,8 +74,10 @@ SpellTok(x, d) ==
     [] x.ty = "tag" -> d[3] \o Hy(x.tl) \o TagInner[x.i] \o Hy(x.tr) \o d[4]
 Spell(xs, d) == Flatten([i \in 1..Len(xs) |-> SpellTok(xs[i], d)])
 
-Cases == [g : {"scan"}, q : 1..Len(Quads), xs : UNION {TokSeqs(n) : n \in 0..N}, line0 : {0, 7}]
-         \cup [g : {"scan"}, q : {0}, m : 0..15, xs : UNION {TokSeqs(n) : n \in 0..2}, line0 : {0}]
+\* (an object whose own text holds the closing delimiter cannot be written with it)
+Spellable(xs, d) == \A k \in 1..Len(xs) : xs[k].ty = "obj" => ~HasSub(ObjInner[xs[k].i], d[2])
+Cases == {x \in [g : {"scan"}, q : 1..Len(Quads), xs : UNION {TokSeqs(n) : n \in 0..N}, line0 : {0, 7}] : Spellable(x.xs, EffDelims(Quads[x.q]))}
+         \cup {x \in [g : {"scan"}, q : {0}, m : 0..15, xs : UNION {TokSeqs(n) : n \in 0..2}, line0 : {0}] : Spellable(x.xs, EffDelims(EmptySubsets[x.m]))}
          \cup [g : {"render"}, q : 1..Len(Quads), m : {0}, k : 1..9]
          \cup [g : {"render"}, q : {0}, m : {0, 3, 5, 10, 12, 15}, k : 1..9]
 QuadOf(x) == IF x.q = 0 THEN EmptySubsets[x.m] ELSE Quads[x.q]
